@@ -26,6 +26,7 @@ probe, judged by tools/oracle_c14.py).
 -/
 import Hfsm.Proofs.PayloadMach
 import Hfsm.Proofs.Witness
+import Hfsm.Proofs.Reach
 
 set_option linter.unusedSectionVars false
 
@@ -251,5 +252,157 @@ Theorems that constitute property C14 (for `Props/INDEX.json`):
     exposed_is_one_of_the_issued             `S := (· ∈ L)`: no mixing
     payload_example                          concrete run
 -/
+
+end Hfsm.Props.C14
+
+/-! ## end-to-end (composition over whole histories)
+
+`operations_preserve_provenance` is per operation and `create_closed` is the base case; none of them needs a
+well-formedness hypothesis, so what remains to compose is the induction over a history: if everything HANDED to
+an instance during its life — the decisions of its callbacks, the arguments of its API calls — is in `S`, then
+everything it ever exposes is.  Stated for both operation languages: `Mach.run` from `Mach.create` (the runs of
+C01; every reachable instance is one, `reachableOf_iff`) and `Api.run` from `Api.boot` (no legality condition is
+needed here). -/
+namespace Hfsm.Props.C14
+open Hfsm Hfsm.Mach
+variable {U : Type} [UtilArith U]
+
+/-- everything the call `s` hands to the library is in `S`: the decisions its callbacks will take and the
+transitions / plan task among its arguments -/
+def StepWithin (S : Transition → Prop) (s : ApiStep U) : Prop :=
+  (∀ d ∈ s.ds, Decision.Within S d) ∧
+  match s.op with
+  | .request k d p => S ⟨none, d, k, p⟩
+  | .immediate k d p => S ⟨none, d, k, p⟩
+  | .planAppend _ t => Task.Within S t
+  | .replayTransitions ts => ∀ t ∈ ts, S t
+  | .replayEnter ts => ∀ t ∈ ts, S t
+  | _ => True
+
+/-- the same for a call of the `Api.run` language (its decisions were given at construction) -/
+def OpWithin (S : Transition → Prop) : Api.Op → Prop
+  | .request k d p => S ⟨none, d, k, p⟩
+  | .immediate k d p => S ⟨none, d, k, p⟩
+  | .planAppend _ t => Task.Within S t
+  | .replay ts => ∀ t ∈ ts, S t
+  | .replayEnter ts => ∀ t ∈ ts, S t
+  | _ => True
+
+theorem api_step_closed {S : Transition → Prop} (m : Mach U) (o : Api.Op) (c : Closed S m.w) (ho : OpWithin S o) :
+    Closed S (Api.step m o).w := by
+  obtain ⟨_, hu, hr, hq, hen, hex, hre, hreq, hpa, hpc, hst, hld, hrp⟩ := operations_preserve_provenance m c
+  cases o with
+  | enter => exact hen
+  | exit => exact hex
+  | update => exact hu
+  | react => exact hr
+  | query => exact hq
+  | reset => exact hre
+  | request k d p => exact (hreq k d p ho).1
+  | immediate k d p => exact (hreq k d p ho).2
+  | setTask sid b => exact hst sid b
+  | planAppend rid t => exact hpa rid t ho
+  | planClear rid => exact hpc rid
+  | load bits => exact hld bits
+  | replay ts => exact (hrp ts ho).1
+  | replayEnter ts => exact (hrp ts ho).2
+
+theorem step_closed {S : Transition → Prop} (m : Mach U) (s : ApiStep U) (c : Closed S m.w) (hs : StepWithin S s) :
+    Closed S (m.step s).w := by
+  have c1 : Closed S (m.feed s.ds s.rng).w := ⟨c.requests, c.pending, c.current, c.previous, hs.1, c.plans⟩
+  rcases Mach.step_cases m s with ⟨msg, e⟩ | ⟨o, ho, _, e⟩
+  · rw [e]; exact (World.fail'_logOnly _ msg).closed c1
+  · rw [e]
+    refine api_step_closed _ o c1 ?_
+    have h2 := hs.2
+    rw [← ho] at h2
+    cases o <;> first | exact h2 | trivial
+
+/-- **Provenance over a whole life.**  Every instance reached from `Mach.create` by calls that hand the library
+only transitions of `S` holds and exposes only transitions of `S`. -/
+theorem run_closed_reachable {S : Transition → Prop} (shape : Shape) (cfg : Config) (steps : List (ApiStep U))
+    (hs : ∀ s ∈ steps, StepWithin S s) : Closed S ((Mach.create shape cfg : Mach U).run steps).w := by
+  have h0 : Closed S (Mach.create shape cfg : Mach U).w := by
+    exact create_closed (U := U) (S := S) shape cfg (Mach.create shape cfg : Mach U).w.ds (by
+      rw [Mach.create_ds]; intro d hd; cases hd)
+  suffices H : ∀ (steps : List (ApiStep U)) (m : Mach U), Closed S m.w → (∀ s ∈ steps, StepWithin S s) →
+      Closed S (m.run steps).w from H steps _ h0 hs
+  intro steps
+  induction steps with
+  | nil => intro m c _; exact c
+  | cons s rest ih =>
+    intro m c hall
+    exact ih (m.step s) (step_closed m s c (hall s List.mem_cons_self))
+      (fun x hx => hall x (List.mem_cons_of_mem _ hx))
+
+/-- … in the `Api.run` language: decisions given at construction, arguments of the calls. -/
+theorem api_run_closed_reachable {S : Transition → Prop} (shape : Shape) (cfg : Config) (ds : List (Decision U))
+    (rng : List U) (ops : List Api.Op) (hds : ∀ d ∈ ds, Decision.Within S d) (hops : ∀ o ∈ ops, OpWithin S o) :
+    Closed S (Api.run (Api.boot shape cfg ds rng : Mach U) ops).w := by
+  have h0 : Closed S (Api.boot shape cfg ds rng : Mach U).w := by
+    have c0 := create_closed (U := U) (S := S) shape cfg ds hds
+    have c1 : Closed S ((Mach.create shape cfg : Mach U).feed ds rng).w :=
+      ⟨c0.requests, c0.pending, c0.current, c0.previous, hds, c0.plans⟩
+    unfold Api.boot
+    split
+    · exact c1
+    · exact (operations_preserve_provenance _ c1).2.2.2.2.1
+  suffices H : ∀ (ops : List Api.Op) (m : Mach U), Closed S m.w → (∀ o ∈ ops, OpWithin S o) →
+      Closed S (Api.run m ops).w from H ops _ h0 hops
+  intro ops
+  induction ops with
+  | nil => intro m c _; exact c
+  | cons o rest ih =>
+    intro m c hall
+    exact ih (Api.step m o) (api_step_closed m o c (hall o List.mem_cons_self))
+      (fun x hx => hall x (List.mem_cons_of_mem _ hx))
+
+/-- Hence, after any such history: the transition history and `lastTransitionTo` expose only issued values,
+whole (origin, destination, kind and payload together). -/
+theorem history_exposes_only_issued_reachable {S : Transition → Prop} (shape : Shape) (cfg : Config)
+    (steps : List (ApiStep U)) (hs : ∀ s ∈ steps, StepWithin S s) :
+    (∀ t ∈ ((Mach.create shape cfg : Mach U).run steps).w.previous, S t) ∧
+    (∀ t ∈ ((Mach.create shape cfg : Mach U).run steps).w.requests, S t) ∧
+    ∀ sid t, ((Mach.create shape cfg : Mach U).run steps).lastTransitionTo sid = some t → S t :=
+  have c := run_closed_reachable shape cfg steps hs
+  ⟨c.previous, c.requests, fun sid t h => lastTransitionTo_exposes_issued _ c sid t h⟩
+
+/-- a history in which nothing handed over carries a payload exposes none -/
+theorem payloadless_history_reachable (shape : Shape) (cfg : Config) (steps : List (ApiStep U))
+    (hs : ∀ s ∈ steps, StepWithin (fun t => t.payload = none) s) :
+    ∀ t ∈ ((Mach.create shape cfg : Mach U).run steps).w.previous, t.payload = none :=
+  (run_closed_reachable shape cfg steps hs).previous
+
+/-- a concrete non-trivial reachable instance exists, and its whole history satisfies the hypotheses with
+`S := payload = none` (one transition was issued by a callback, one through the API) -/
+example : Reachable (Api.run Demo.mach Demo.prog) := Demo.reachable.reachable
+example : (∀ d ∈ Demo.ds, Decision.Within (fun t => t.payload = none) d) ∧
+    (∀ o ∈ Demo.prog, OpWithin (fun t => t.payload = none) o) ∧
+    (Api.run Demo.mach Demo.prog).w.previous = [⟨none, 1, .change, none⟩] := by
+  refine ⟨?_, ?_, by decide +kernel⟩
+  · intro d hd
+    have hd' : d = [] ∨ d = [.request .change 2 none] := by
+      simp only [Demo.ds, List.mem_append, List.mem_cons, List.mem_replicate, List.mem_nil_iff, or_false] at hd
+      rcases hd with (h | h | h | h | h | h | h) | h
+      · exact .inl h
+      · exact .inl h
+      · exact .inl h
+      · exact .inl h
+      · exact .inl h
+      · exact .inl h
+      · exact .inr h
+      · exact .inl h.2
+    rcases hd' with rfl | rfl
+    · exact ⟨fun _ _ _ h => (nomatch h), fun _ _ _ _ h => (nomatch h)⟩
+    · refine ⟨fun k dst p h o => ?_, fun o dst k p h => ?_⟩
+      · cases List.mem_singleton.mp h; rfl
+      · cases List.mem_singleton.mp h
+  · intro o ho
+    simp only [Demo.prog, List.mem_cons, List.mem_nil_iff, or_false] at ho
+    rcases ho with rfl | rfl | rfl | rfl
+    · trivial
+    · trivial
+    · rfl
+    · trivial
 
 end Hfsm.Props.C14
